@@ -281,7 +281,8 @@ def run_apalache(module, obligations):
         os.makedirs(outdir, exist_ok=True)
         cmd = ["timeout", "900", "apalache-mc", "check", "--out-dir=" + outdir] + ob["args"] + [name + ".tla"]
         t0 = time.time()
-        r = subprocess.run(cmd, cwd=d, stdout=subprocess.PIPE, stderr=subprocess.STDOUT, text=True)
+        # (TMPDIR: the launcher unpacks SANY's standard modules with `mktemp -t`, which would otherwise litter /tmp)
+        r = subprocess.run(cmd, cwd=d, stdout=subprocess.PIPE, stderr=subprocess.STDOUT, text=True, env=dict(os.environ, TMPDIR=outdir))
         shutil.rmtree(outdir, ignore_errors=True)
         shutil.rmtree(os.path.join(d, "tmp"), ignore_errors=True)      # Apalache's scratch directory in the working directory
         ok = r.returncode == 0 and "The outcome is: NoError" in r.stdout
